@@ -46,7 +46,9 @@ RULE = ("(a) aligned periods (first of month for month/year, Monday for week) of
         "the rejection classes of the statement (impossible dates incl. week 53 of 52-week years, unit lighter than "
         "the date's precision, non-integer size, unknown unit, extra fields, empty fields), random short strings. "
         "(0) 150 sequences run in ONE process each: every accepted spelling of a day (ISO date, week date with and "
-        "without weekday, month, year, unit-prefixed forms) parsed in random order, the parser's own result printed "
+        "without weekday, month, year, unit-prefixed forms) and every other accepted argument type (datetime.date, "
+        "datetime with time and zone, pendulum date / datetime, Instant, Period, tuple, list, int) given to "
+        "periods.instant / periods.period in random order, the parser's own result printed "
         "and parsed back, then the instant and periods of that day and its neighbours built afresh and printed: "
         "printing must not depend on what was parsed before. "
         "A case is non-trivial when it yields a value (not an error) and is distinct as (op, arguments)")
@@ -109,7 +111,64 @@ def coq_step(c):
         return f"(KParseShow {cstr(c['s'])})"
     if op == "iparseshow":
         return f"(KParseShowInst {cstr(c['s'])})"
+    if op == "buildshow":
+        return f"(KBuildShow {cinput(c['v'])})"
+    if op == "ibuildshow":
+        return f"(KBuildShowInst {cinput(c['v'])})"
     raise ValueError(op)
+
+
+DATE_LIKE = ("date", "datetime", "datetime_tz", "pdate", "pdatetime", "pdatetime_tz")
+
+
+def cinput(v):
+    t, x = v["t"], v.get("v")
+    if t in DATE_LIKE:
+        return f"(IDate {cdate(x[:3])})"
+    if t == "instant":
+        return f"(IInstant {cdate(x)})"
+    if t == "period":
+        return f"(IPeriod {cperiod(x)})"
+    if t in ("tuple", "list"):
+        return f"(ISeq {clist([cz(i) for i in x])})"
+    if t == "int":
+        return f"(IInt {cz(x)})"
+    if t == "str":
+        return f"(IStr {cstr(x)})"
+    if t == "none":
+        return "INone"
+    raise ValueError(t)
+
+
+def mk_input(v):
+    """The real Python object of an input description."""
+    import pendulum
+    t, x = v["t"], v.get("v")
+    if t == "date":
+        return datetime.date(*x[:3])
+    if t == "datetime":
+        return datetime.datetime(*x[:6])
+    if t == "datetime_tz":
+        return datetime.datetime(*x[:6], tzinfo=datetime.timezone(datetime.timedelta(minutes=v["tz"])))
+    if t == "pdate":
+        return pendulum.date(*x[:3])
+    if t == "pdatetime":
+        return pendulum.datetime(*x[:6], tz="UTC")
+    if t == "pdatetime_tz":
+        return pendulum.datetime(*x[:6], tz=v["tz"])
+    if t == "instant":
+        return Instant(tuple(x))
+    if t == "period":
+        return mk_period(x)
+    if t == "tuple":
+        return tuple(x)
+    if t == "list":
+        return list(x)
+    if t in ("int", "str"):
+        return x
+    if t == "none":
+        return None
+    raise ValueError(t)
 
 
 def coq_case(c):
@@ -139,6 +198,12 @@ def run_impl(c):
         return [enc_period(q), guarded(round_obs, q)]      # prints the very object the parser returned
     if op == "iparseshow":
         i = periods.instant(c["s"])
+        return [list(i), guarded(iround_obs, i)]
+    if op == "buildshow":
+        q = periods.period(mk_input(c["v"]))
+        return [enc_period(q), guarded(round_obs, q)]
+    if op == "ibuildshow":
+        i = periods.instant(mk_input(c["v"]))
         return [list(i), guarded(iround_obs, i)]
     if op == "seq":
         # all steps in this one process, in order: state kept by the implementation between
@@ -329,7 +394,7 @@ def oracle(c, o):
         for i, (x, y) in enumerate(zip(c["steps"], o)):
             msg = oracle(x, y)
             if msg:
-                before = [st.get("s") or st.get("p") or st.get("c") for st in c["steps"][:i]]
+                before = [st.get("s") or st.get("p") or st.get("c") or st.get("v") for st in c["steps"][:i]]
                 return f"{msg} [step {i} of a sequence in one process, after {before}]"
         return None
     if op == "parseshow":
@@ -343,6 +408,30 @@ def oracle(c, o):
             return f"denotes: {c['s']!r} denotes {exp}, parsed as {o[0]}"
         # what the parser returned must print and round-trip like any other period
         return oracle({"op": "round", "p": o[0]}, o[1])
+    if op in ("buildshow", "ibuildshow"):
+        v = c["v"]
+        t, x = v["t"], v.get("v")
+        if t == "str":
+            return oracle({"op": "parseshow" if op == "buildshow" else "iparseshow", "s": x}, o)
+        # what the argument denotes, read independently
+        if t in DATE_LIKE or t == "instant":
+            start, per = list(x[:3]), [2, list(x[:3]), 1]
+        elif t == "period":
+            start, per = list(x[1]), [x[0], list(x[1]), x[2]]
+        elif t == "int":
+            start, per = [x, 1, 1], [4, [x, 1, 1], 1]
+        elif t in ("tuple", "list") and x:
+            start, per = (list(x) + [1, 1, 1])[:3], None
+        else:
+            start, per = None, None
+        exp = per if op == "buildshow" else start
+        if isinstance(o, Err):
+            return f"build: {v} denotes {exp} but raised {o.kind}" if exp is not None and t != "period" else None
+        if exp is not None and o[0] != exp:
+            return f"build: {v} denotes {exp}, got {o[0]}"
+        if op == "buildshow":
+            return oracle({"op": "round", "p": o[0]}, o[1])
+        return oracle({"op": "iround", "c": o[0]}, o[1])
     if op == "iparseshow":
         if isinstance(o, Err):
             return None
@@ -440,7 +529,7 @@ def nontrivial(c, o):
         return False
     if c["op"] == "seq":
         return any(nontrivial(x, y) for x, y in zip(c["steps"], o))
-    if c["op"] in ("parseshow", "iparseshow"):
+    if c["op"] in ("parseshow", "iparseshow", "buildshow", "ibuildshow"):
         return True
     if c["op"] == "round":
         return not isinstance(o[1], Err)
@@ -676,6 +765,23 @@ def spellings(d):
     return out
 
 
+def typed_inputs(rng, s):
+    """The day s given as every other accepted argument type."""
+    hms = [rng.randrange(24), rng.randrange(60), rng.randrange(60)]
+    out = [{"t": "date", "v": list(s)}, {"t": "datetime", "v": list(s) + hms},
+           {"t": "datetime_tz", "v": list(s) + hms, "tz": rng.choice([-720, -300, 60, 120, 330, 840])},
+           {"t": "pdate", "v": list(s)}, {"t": "pdatetime", "v": list(s) + hms},
+           {"t": "pdatetime_tz", "v": list(s) + hms, "tz": rng.choice(["Europe/Paris", "America/New_York", "Asia/Tokyo",
+                                                                          "Pacific/Auckland"])},
+           {"t": "instant", "v": list(s)}, {"t": "tuple", "v": list(s)}, {"t": "list", "v": list(s)},
+           {"t": "period", "v": [rng.choice([0, 2]), list(s), rng.choice([1, 3])]}]
+    if s[2] == 1:
+        out += [{"t": "tuple", "v": s[:2]}, {"t": "period", "v": [rng.choice([3, 4]), list(s), rng.choice([1, 2, 12])]}]
+        if s[1] == 1:
+            out += [{"t": "int", "v": s[0]}, {"t": "list", "v": s[:1]}]
+    return out
+
+
 def sequences(rng, n_dates, bd):
     """Operation sequences run in one process: parse texts (every accepted spelling of a
     day, in random order), print what the parser returned, print the instant and periods
@@ -691,11 +797,19 @@ def sequences(rng, n_dates, bd):
         elif k % 4 == 2:
             s = [s[0], s[1], 1]        # first of month: month / year texts apply
         d = D(s)
-        sp = spellings(d)
+        sp = spellings(d) + [("v", v) for v in typed_inputs(rng, list(s))]
         rng.shuffle(sp)
+        if k % 2 == 0 and 1 < s[0] < 9999:
+            # one of the other argument types is the first thing this process sees of the day
+            first = rng.choice([x for x in sp if x[0] == "v"])
+            sp.remove(first)
+            sp.insert(0, first)
         steps = []
-        for kind, text in sp[: rng.choice([1, 2, 4, len(sp)])]:
-            if kind == "i" and rng.random() < 0.7:
+        for kind, text in sp[: rng.choice([1, 2, 4, 8, len(sp)])]:
+            if kind == "v":
+                as_instant = text["t"] in ("tuple", "list") or rng.random() < 0.6
+                steps.append({"op": "ibuildshow" if as_instant else "buildshow", "v": text})
+            elif kind == "i" and rng.random() < 0.7:
                 steps.append({"op": "iparseshow", "s": text})
             else:
                 steps.append({"op": "parseshow", "s": text})
